@@ -363,3 +363,38 @@ pub fn gen_value(ch: &mut Choices, depth: usize) -> V {
         }
     }
 }
+
+// ---------------------------------------------------------------------------
+// building cells through the API
+// ---------------------------------------------------------------------------
+pub fn to_cell(v: &V) -> Cell {
+    match v {
+        V::Nil => Cell::Nil,
+        V::Flag(b) => Cell::Flag(*b),
+        V::Int(i) => Cell::Int(*i),
+        V::Real(b) => Cell::Real(f64::from_bits(*b)),
+        V::Str(s) => Cell::Str(Xstr::from(s.as_str())),
+        V::Bits(b) => Cell::Bitstr(crate::xs::bitstr_from_bits(b)),
+        V::Vec(items) => {
+            let mut x = Xvec::new();
+            for i in items {
+                x.push_back_mut(to_cell(i));
+            }
+            Cell::Vector(x)
+        }
+        V::Map(pairs) => {
+            let mut m = Xmap::new();
+            for (k, x) in pairs {
+                m.insert_mut(to_cell(k), to_cell(x));
+            }
+            Cell::Map(m)
+        }
+        V::Tagged(x, tags) => {
+            let mut m = Xmap::new();
+            for (k, t) in tags {
+                m.insert_mut(to_cell(k), to_cell(t));
+            }
+            to_cell(x).with_tags(m)
+        }
+    }
+}
